@@ -109,6 +109,7 @@ def build_harness(variant="asan"):
     exe = os.path.join(bdir, "vharness")
     with Lock(".harness.lock" if variant == "asan" else ".harness-%s.lock" % variant):
         if os.path.exists(exe):
+            _note_dropped(bdir)
             return exe
         t0 = time.time()
         tmp = bdir + ".tmp"
@@ -124,8 +125,24 @@ def build_harness(variant="asan"):
         with ThreadPoolExecutor(max_workers=16) as ex:
             res = list(ex.map(_compile, jobs))
         bad = [(s, e) for s, rc, e in res if rc != 0]
-        if bad:
-            raise InfraError("harness compile failed: %s\n%s" % (bad[0][0], bad[0][1][-3000:]))
+        # A handler file (harness/h_<area>.cpp) that no longer compiles against the current tree — it
+        # reaches into the code's private state, which a change may have reshaped — is left out: its
+        # requests are then answered "bad-request", the correspondence of the checks that use it is
+        # broken and they report that, naming the file (HARNESS_DROPPED); the other checks are not
+        # affected.  A /repo source or the harness core that does not compile stays an error of the set-up.
+        droppable = [(s, e) for s, e in bad if os.path.dirname(s) == os.path.join(ROOT, "harness") and os.path.basename(s).startswith("h_")
+                     and os.path.basename(s) not in ("h_main.cpp",)]
+        if bad and len(droppable) != len(bad):
+            hard = [b for b in bad if b not in droppable][0]
+            raise InfraError("harness compile failed: %s\n%s" % (hard[0], hard[1][-3000:]))
+        dropped = []
+        for s, e in droppable:
+            first = next((l for l in e.splitlines() if "error" in l), e.strip().splitlines()[0] if e.strip() else "")
+            dropped.append("%s does not compile against the current tree: %s" % (os.path.relpath(s, ROOT), first.strip()[:300]))
+        with open(os.path.join(tmp, "dropped.txt"), "w") as f:
+            f.write("\n".join(dropped))
+        badset = {s for s, _ in droppable}
+        jobs = [j for j in jobs if j[0] not in badset]
         objs = [j[1] for j in jobs]
         r = subprocess.run(["g++"] + ldflags + objs + ["-o", os.path.join(tmp, "vharness")],
                            capture_output=True, text=True)
@@ -141,7 +158,20 @@ def build_harness(variant="asan"):
                 if time.time() - os.path.getmtime(p) > 3600:
                     shutil.rmtree(p, ignore_errors=True)
         log("harness%s built in %.1fs (%s)" % ("" if variant == "asan" else " variant " + variant, time.time() - t0, th))
+        _note_dropped(bdir)
         return exe
+
+
+HARNESS_DROPPED = []
+
+
+def _note_dropped(bdir):
+    p = os.path.join(bdir, "dropped.txt")
+    if os.path.exists(p):
+        for l in open(p).read().splitlines():
+            if l and l not in HARNESS_DROPPED:
+                HARNESS_DROPPED.append(l)
+                log("harness: " + l)
 
 
 def build_tools(variant="asan"):
@@ -592,6 +622,8 @@ def run_check(spec, tier, seed, replay=None):
         broken.append("regenerated tables: " + table_broken)
     if proof["status"] != "proved":
         broken.append("proof: " + proof["why"])
+    if diffs and HARNESS_DROPPED:
+        broken.extend("harness: " + l for l in HARNESS_DROPPED)
     if diffs:
         broken.append("correspondence: %d of %d cases differ (stream %s), first: %s" % (
             len(diffs), len(reqs), getattr(spec, "STREAM", pid), reqs[min(diffs, key=lambda j: len(reqs[j]))][:200]))
